@@ -361,7 +361,7 @@ func c13Assignments(k int) [][]int {
 func runC13(c *vx.Ctx) {
 	core.VScaleParams(core.VR1)
 	core.VScaleLockBytes()
-	c.Rule = "all assignments of 5 miner kinds to the first K blocks of a fixed 24-block prime/region/zone order pattern x duplicate-share attempts at offsets {none,+1,+2,+3,+4}; temporal monitor (formula, exactly-once credit by balance deltas, Qi reward outputs, share uniqueness); outcome class = credits x Qi rewards x share"
+	c.Rule = "all assignments of 5 miner kinds to the first K blocks of a fixed 24-block prime/region/zone order pattern x duplicate-share attempts at offsets {none,+1,+2,+3,+4}; temporal monitor (formula, exactly-once credit by balance deltas, Qi reward outputs, share uniqueness); outcome class = credits x Qi rewards x share; every history again with every block mined as two siblings; contracts: all assignments of {plain, X lock 0, X lock 1, Y lock 0} to K blocks plus the histories mined through one contract throughout, claims at three heights, model of the lockup ledger"
 	c.Assume("scaled protocol constants: " + fmt.Sprint(core.VScaled) + "; BlocksPerMonth=2 so that lock bytes 1-3 and their reward multiples are legal from block 4")
 	c.Assume("contract-held lockups (accumulation per contract/miner/byte/epoch and claims through the lockup precompile) are not driven by this check")
 	k := 3
